@@ -340,6 +340,16 @@ func (ww *conversionVisitor) visitEnumNode(node *sourcewalk.EnumNode) {
 		proto.SetExtension(eb.desc.Options, ext_j5pb.E_Enum, ext)
 	}
 
+	for _, opt := range node.Schema.Options {
+		if len(opt.Info) > 0 {
+			// addValue sets (j5.ext.v1.enum_value)
+			ww.file.ensureImport(j5ExtImport)
+		}
+	}
+	if node.Schema.Info != nil {
+		ww.file.ensureImport(j5ExtImport)
+	}
+
 	optionsToSet := node.Schema.Options
 	if len(optionsToSet) > 0 && optionsToSet[0].Number == 0 && strings.HasSuffix(optionsToSet[0].Name, "UNSPECIFIED") {
 		eb.addValue(0, optionsToSet[0])
